@@ -177,8 +177,16 @@ def t4_consts():
     m = re.search(r"pub\s+const\s+MAX_RECORD_DATA\s*:\s*usize\s*=\s*([^;]+);", rp)
     if not m: raise Untranslatable("src/tls_records_parser.rs: MAX_RECORD_DATA not found")
     b = eval_int(m.group(1), "MAX_RECORD_DATA")
+    # is the debug assertion on the defragmentation buffer present in parse_record?
+    body = nows(fn_body(rp, "parse_record", "src/tls_records_parser.rs"))
+    n_assert = len(re.findall(r"debug_assert", body)) + len(re.findall(r"(?<!debug_)assert!|assert_eq!|assert_ne!|panic!|unreachable!|\.unwrap\(\)|\.expect\(", body))
+    has = "debug_assert!(!self.record_defrag_buffer.is_empty());" in body
+    if n_assert != (1 if has else 0):
+        raise Untranslatable("src/tls_records_parser.rs: parse_record contains assertion/panic sites the model does not know")
     return ("(* GENERATED by tools/translate.py (T4) -- do not edit *)\nFrom Coq Require Import NArith.\nOpen Scope N_scope.\n"
-            "Definition MAX_RECORD_LEN : N := %d.\nDefinition MAX_RECORD_DATA : N := %d.\n" % (a, b))
+            "Definition MAX_RECORD_LEN : N := %d.\nDefinition MAX_RECORD_DATA : N := %d.\n"
+            "(* debug_assert!(!self.record_defrag_buffer.is_empty()) present in parse_record *)\n"
+            "Definition DEFRAG_DEBUG_ASSERT : bool := %s.\n" % (a, b, "true" if has else "false"))
 
 # ---------------------------------------------------------------- helpers for functions / matches
 def fn_body(src, name, where):
